@@ -345,12 +345,18 @@ def _lin1(t):
     return p, c, a[1]
 
 
-def feasible(conds, integer=True):
+def feasible(conds, integer=True, _depth=0):
     """Satisfiability of a conjunction of comparisons by interval reasoning,
     separately for each linear form (sound: True when unsure)."""
     cs = []
     for c in conds:
         cs.extend(conjuncts(c))
+    # a disjunction among the conjuncts: satisfiable iff one of its cases is (bounded case split)
+    for i, c in enumerate(cs):
+        ds = disjuncts(c)
+        if len(ds) > 1 and _depth < 6 and len(ds) <= 4:
+            rest = cs[:i] + cs[i + 1:]
+            return any(feasible(rest + [d], integer, _depth + 1) for d in ds)
     groups = []  # (poly, [ (sgn, const, op) ])
     for c in cs:
         if T.is_pure_const(c):
@@ -727,4 +733,125 @@ def collected(tr, t):
         if (ap[0].pc[-1].cond.single_atom() or ("",))[0] != "inloop":
             return None  # a guarded append does not happen once per repetition
         return ap[0].value.single_atom()[1][0], n, ap[0]
+    return None
+
+
+# ---------------------------------------------------------------------------
+# position views: what a list holds at position POS / what an accumulator sums, however the repetition is written
+# (loop + append, comprehension over range, comprehension or loop over another such list)
+
+def _range_of(it):
+    ia = it.single_atom() if isinstance(it, T.R) else None
+    if ia is not None and ia[0] == "call" and ia[1] == "range" and 1 <= len(ia[2]) <= 2 and not ia[3]:
+        return (const(0), ia[2][0]) if len(ia[2]) == 1 else (ia[2][0], ia[2][1])
+    return None
+
+
+def _resolve_subs(tr, t, depth):
+    """positional reads s[k] of a viewed sequence s inside t are replaced by the element of s at k"""
+    def f(z):
+        if z[0] == "sub":
+            v = seq_view(tr, z[1], depth + 1)
+            if v is not None:
+                return T.subst(v[0], lambda y: z[2] if atom(y) == POS else None)
+        if z[0] == "iter" and depth < 4:
+            # the element a loop / generator over a viewed list stands on: its element at the position of the repetition
+            v = seq_view(tr, z[1], depth + 1)
+            if v is not None:
+                return v[0]
+        return None
+    return T.subst(t, f)
+
+
+def _per_iteration(tr, it, lid, term, depth):
+    """term (computed once per repetition of a loop / generator over `it`) as a function of the position POS; (term', count)."""
+    r = _range_of(it)
+    if r is not None:
+        lo, hi = r
+        t2 = T.subst(term, lambda z: (lo + POS) if z[0] == "idx" and (lid is None or z[1] == lid) else None)
+        return _resolve_subs(tr, t2, depth), hi - lo
+    ia = it.single_atom() if isinstance(it, T.R) else None
+    if ia is not None and ia[0] == "call" and ia[1] == "enumerate" and len(ia[2]) == 1:
+        v = seq_view(tr, ia[2][0], depth + 1)
+        if v is None:
+            return None
+        t2 = T.subst(term, lambda z: POS if z[0] == "idx" and (lid is None or z[1] == lid) else None)
+        return _resolve_subs(tr, t2, depth), v[1]
+    if ia is not None and ia[0] == "call" and ia[1] == "zip" and ia[2]:
+        # for a, b in zip(s1, s2): the targets are s1[idx], s2[idx]; as long as the shortest operand
+        views = [seq_view(tr, s, depth + 1) for s in ia[2]]
+        ns = [v[1] for v in views if v is not None]
+        if not ns or any(not T.same(n, ns[0]) for n in ns):
+            return None
+        t2 = T.subst(term, lambda z: POS if z[0] == "idx" and (lid is None or z[1] == lid) else None)
+        return _resolve_subs(tr, t2, depth), ns[0]
+    v = seq_view(tr, it, depth + 1)
+    if v is not None:
+        t2 = T.subst(term, lambda z: v[0] if z[0] == "iter" and z[1] == it and (lid is None or z[2] == lid) else None)
+        return _resolve_subs(tr, t2, depth), v[1]
+    return None
+
+
+def _in_loop_unguarded(e, lid):
+    """is the event inside loop lid and not under any condition of its own there?"""
+    for i, p in enumerate(e.pc):
+        a = p.cond.single_atom()
+        if a is not None and a[:2] == ("inloop", lid):
+            return all((x.cond.single_atom() or ("",))[0] == "inloop" for x in e.pc[i + 1:]) and len(e.pc) == i + 1
+    return False
+
+
+def seq_view(tr, t, depth=0):
+    """(element at position POS, length) of a list built once per repetition, or None."""
+    a = t.single_atom() if isinstance(t, T.R) else None
+    if a is None or depth > 4:
+        return None
+    if a[0] == "comp" and a[1] in ("list", "gen") and len(a[2]) == 1 and len(a[3]) == 1 and not a[4]:
+        return _per_iteration(tr, a[3][0], None, a[2][0], depth)
+    if a[0] == "loopvar" and isinstance(a[2], str) and a[2].startswith("$") and a[1] in tr.loops:
+        L = tr.loops[a[1]]
+        name = a[2][1:]
+        ap = [e for e in tr.of("localmut") if e.name == name and any((p.cond.single_atom() or ("",))[:2] == ("inloop", a[1]) for p in e.pc)]
+        if len(ap) != 1 or ap[0].how != "method:append" or not _in_loop_unguarded(ap[0], a[1]) or L["pre"].locs.get(name) != atom(("list", ())):
+            return None
+        if [e for e in tr.of("local") if e.name == name and any((p.cond.single_atom() or ("",))[:2] == ("inloop", a[1]) for p in e.pc)]:
+            return None  # rebound inside the loop
+        return _per_iteration(tr, L["iter"], a[1], ap[0].value.single_atom()[1][0], depth)
+    return None
+
+
+def sum_view(tr, t, depth=0):
+    """(summand at position POS, number of summands) of a running total or a sum(...) over a viewed list, or None."""
+    a = t.single_atom() if isinstance(t, T.R) else None
+    if a is None:
+        return None
+    if a[0] == "call" and a[1] in ("sum", "numpy.sum", "math.fsum") and len(a[2]) == 1 and not a[3]:
+        return seq_view(tr, a[2][0], depth)
+    if a[0] == "loopvar" and isinstance(a[2], str) and a[2].startswith("$") and a[1] in tr.loops:
+        L = tr.loops[a[1]]
+        name = a[2][1:]
+        inside = [e for e in tr.of("local") if e.name == name and any((p.cond.single_atom() or ("",))[:2] == ("inloop", a[1]) for p in e.pc)]
+        if len(inside) != 1 or inside[0].aug is None or inside[0].aug[0] != "Add" or not _in_loop_unguarded(inside[0], a[1]):
+            return None
+        if L["pre"].locs.get(name) != const(0):
+            return None
+        return _per_iteration(tr, L["iter"], a[1], inside[0].aug[1], depth)
+    return None
+
+
+def at_pos(tr, t):
+    """t with its loop / generator index replaced by POS and positional reads of viewed lists resolved (for comparing a
+    per-iteration value with a view's element)"""
+    return _resolve_subs(tr, T.subst(t, lambda z: POS if z[0] == "idx" else None), 0)
+
+
+def reduction_of(t, name):
+    """the operand x when t is x.<name>() / numpy.<name>(x) / <name>(x) (no further arguments), else None"""
+    a = t.single_atom() if isinstance(t, T.R) else None
+    if a is None:
+        return None
+    if a[0] == "mcall" and a[2] == name and not a[3] and not a[4]:
+        return a[1]
+    if a[0] == "call" and a[1] in (name, "numpy." + name, "numpy.a" + name, "numpy.nan" + name) and len(a[2]) == 1 and not a[3] and a[1] != "numpy.nan" + name:
+        return a[2][0]
     return None
